@@ -21,6 +21,7 @@ mod c12;
 mod fmt;
 mod c16;
 mod corpus;
+mod surfgen;
 mod lub;
 
 use common::Opts;
